@@ -80,6 +80,13 @@ def gen_duration(rng):
     words = lex.duration_words('en')
     parts = []
     total = 0
+    if rng.random() < 0.06:
+        # a very long duration (beyond 2^31 and 2^32 seconds): the clock still moves by it modulo 24 hours
+        u = rng.choice(['hour', 'minute', 'second', 'week', 'year'])
+        c = rng.choice([1193047, 1193046, 596524, 71582789, 4294967297, 2147483649, 5000000000, 200, 137, 300, 7102]) if u != 'year' else rng.choice([69, 137, 200, 300])
+        if u in ('week',):
+            c = rng.choice([7102, 3551, 10000])
+        return '%d %s' % (c, rng.choice(words[u])), c * lex.DUR_LEN[u]
     for _ in range(rng.choice([1, 1, 2, 3])):
         u = rng.choice(['hour', 'minute', 'second', 'hour', 'minute', 'day'])
         c = rng.choice([0, 1, 2, 5, 12, 23, 24, 25, 30, 59, 60, 61, 90, 1000])
@@ -151,6 +158,12 @@ def run_shard(ctx):
                 t2, W2 = gen_time(rng)
                 text, cls = '%s to %s' % (tt, t2), 'difference'
                 want = ('duration', abs(W2 - W))
+            if cls != 'literal' and rng.random() < 0.12:
+                # words in front of the time, or a name it is bound to, with letters whose upper / lower case has another byte length
+                # (dotless i shrinks, sharp s grows): what the line denotes stays the same
+                lead = rng.choice(['çıkış', 'kısıtlı', 'ığdır ılık', 'straße', 'ŉ ǰ', 'İstanbul ıı'])
+                text = ('%s = %s' % (lead, text)) if rng.random() < 0.5 else ('%s %s' % (lead, text))
+                cls += ':after-multibyte-words'
             items.append(('en', text))
             meta.append((text, cls, want))
         cops = mon.gh.config_ops(cfg) + pre
